@@ -180,6 +180,14 @@ def run(ctx):
     from .c19_semantics import check_field_semantics
 
     check_field_semantics(ctx, "R3", "R4", "R5")
+    ctx.rule("R7", "default templates have the structure the program's input syntax requires (rendered with markers)", "charge and multiplicity swapped, method/basis separator lost, geometry or a block terminator missing: the program reads another molecule or rejects the input")
+    from .c19_semantics import check_default_templates
+
+    check_default_templates(ctx, "R7")
+    ctx.rule("R8", "the rendered template reaches the file; the API forwards template, atom_line and keyword arguments (evaluated)", "nothing (or the unrendered template) is written, or a user template / atom-line callback is swapped or dropped on the way")
+    from .c19_semantics import check_rendering
+
+    check_rendering(ctx, "R8")
     # the merged dictionary is what gets formatted, after the geometry was added
     pr = [i for i, (k, n, _) in enumerate(order) if k == "print"]
     up = [i for i, (k, n, _) in enumerate(order) if k == "update" and n == user]
